@@ -29,7 +29,7 @@ ASSUMPTIONS = [
     'SEVERAL streams on one limiter: NOT proved (the sequential potential argument does not extend); bounded stand-in only, known finding D11',
 ]
 MANIFEST = {
-    'text': 'Deductive proof for ONE stream, all limits and all request/latency sequences: read/write pass the data through untouched, the potential L*t - sent + L*debt never decreases and the amortised debt stays within [-excess, 0.25], which gives the window bound sent(T) <= L*T + L*(0.25 + dmax); seek/tell/truncate are forwarded; the commands choose a chunk size <= L/4. Several streams on one limiter are covered only by a labelled bounded stand-in.',
+    'text': 'Deductive proof for ONE stream, all limits and all request/latency sequences: read/write pass the data through untouched, the potential L*t - sent + L*debt never decreases and the amortised debt stays within [-excess, 0.25], which gives the window bound sent(T) <= L*T + L*(0.25 + dmax); seek/tell/truncate are forwarded; the commands choose a chunk size <= L/4 and all three adapters move the payload through the limited stream in pieces of exactly that size. Several streams on one limiter are covered only by a labelled bounded stand-in.',
     'note': 'Trusted: vf engine, z3 NRA; floats as reals; clock/sleep model. Open known finding D11 (N streams with slow sources reach N*L) is reproduced natively by the stand-in.',
     'technique': 'contract-based deductive verification: sidecar contracts on the real functions, VCs by symbolic execution of the AST over linear/non-linear real arithmetic, discharged by z3',
     'design_ref': 'DESIGN.md 6/C20',
